@@ -25,13 +25,12 @@ from harness import views_replay as R
 
 REQUIRED_ACTIONS = ('DoSetSlice', 'DoDelSlice', 'DoSetIdx', 'DoDelIdx', 'DoInsert', 'DoAppend', 'DoExtend', 'DoPrepend',
                     'DoPrextend', 'DoReplaceOne', 'DoReplaceSeq', 'DoRemove', 'DoCut', 'DoUseClean', 'DoUseStale',
-                    'DoMkFull', 'DoMkSub', 'DoBasePut', 'DoIndexError', 'DoInverted')
+                    'MkFull', 'DoMkSub', 'DoBasePut', 'DoIndexError', 'DoInverted')
 REQUIRED_CLAUSES = ['KnownEvent', 'Outcome', 'BaseIsPythonList', 'BaseUnchanged', 'LiveIsSource', 'ViewExtent',
                     'ReclipAfterForeignEdit', 'ViewLen', 'ViewContents', 'FullViewIsField', 'SubviewComposes',
                     'CutReturns', 'CopyReturns', 'G.ModelAgree']
 
-RULE = ('views: distinct (container kind, action, outcome, view state class) executed on real FSTViews, where the state '
-        'class is whole-field / sub-view x clean / edited-behind-its-back')
+RULE = ('views: distinct (container kind, action, outcome, number of new elements) executed on real FSTViews')
 
 
 def kinds_for(i: int, quick: bool, rng: random.Random) -> list:
@@ -70,11 +69,17 @@ def judge(ctx, traces, behs, meta, verd):
         ctx.evals += len(tr['steps'])
 
 
-def run_views(ctx, n_quick=250, n_thorough=1200):
+def run_views(ctx, n_quick=250, n_thorough=1200, model=True):
     """Model-check the view state machine, generate behaviours, replay them on the real code, validate by TLC."""
     t0 = time.time()
     q = ctx.quick
-    ctx.model('ViewsMC', 'ViewsMC' if q else 'ViewsMC_thorough', required=REQUIRED_ACTIONS, heap='2g')
+    if model:      # the model does not depend on pfst; mutant runs of the standalone runner may skip it
+        try:
+            ctx.model('ViewsMC', 'ViewsMC' if q else 'ViewsMC_thorough', required=REQUIRED_ACTIONS, heap='2g')
+        except common.Machinery as e:
+            if '(rc=-9)' not in str(e):     # JVM killed from outside (OOM killer on a loaded host): one more try
+                raise
+            ctx.model('ViewsMC', 'ViewsMC' if q else 'ViewsMC_thorough', required=REQUIRED_ACTIONS, heap='2g', workers=4)
     t1 = time.time()
     num, depth = (n_quick, 9) if q else (n_thorough, 15)
     try:
@@ -103,8 +108,7 @@ def run_views(ctx, n_quick=250, n_thorough=1200):
         ctx.sample({'views': t['kind'], 'init': t['init'],
                     'script': [(s['op'], s['v'], s['w'], R._py(s['a']), R._py(s['b']), s['new'], s['outcome'])
                                for s in t['steps']], 'final_src': t['src']})
-    if not ctx.rule:
-        ctx.rule = RULE
+    ctx.rule = (ctx.rule + '; ' if ctx.rule else '') + RULE
     ctx.assumptions += [
         'views: Views.tla models the field as a list of distinct ids; element ids are unique names e<k> in the real '
         'containers; containers with a grammatical minimum length are only driven down to that length (behaviour prefix)',
@@ -177,6 +181,7 @@ def main(argv):
     ap.add_argument('--seed', type=int, default=int(os.environ.get('VERIF_SEED', '0')))
     ap.add_argument('--replay')
     ap.add_argument('--selftest', action='store_true')
+    ap.add_argument('--no-model', action='store_true', help='skip the ViewsMC model-checking run')
     a = ap.parse_args(argv)
     ctx = common.Ctx('VIEWS', a.tier, a.seed)
     try:
@@ -186,7 +191,7 @@ def main(argv):
             with open(a.replay) as f:
                 replay_views(ctx, json.load(f))
         else:
-            print(json.dumps(run_views(ctx)))
+            print(json.dumps(run_views(ctx, model=not a.no_model)))
     except common.Machinery as e:
         print('MACHINERY:', str(e)[:3000])
         return 2
